@@ -737,6 +737,26 @@ def _(vm, a, ci):
 def _(vm, a, ci): return vm.new_box(a[0])
 
 
+@path('Box::new_uninit')
+def _(vm, a, ci):
+    # `vec![..]` lowering of this toolchain: Box<MaybeUninit<[T; N]>> written through (*p).1.0.0, then box_assume_init_into_vec_unsafe
+    return vm.new_box(Adt('MaybeUninit', 0, [UNIT, Adt('ManuallyDrop', 0, [Adt('MaybeDangling', 0, [UNINIT])])]))
+
+
+@path('box_assume_init_into_vec_unsafe', 'boxed::box_assume_init_into_vec_unsafe', 'std::boxed::box_assume_init_into_vec_unsafe')
+def _(vm, a, ci):
+    mu = vm.ref_get(vm.box_ptr(a[0]))
+    arr = mu.fields[1].fields[0].fields[0]
+    if not isinstance(arr, HList): raise Unmodelled('vec! lowering: uninitialised array')
+    return Adt('Vec', 0, [arr])
+
+
+@path('Box::assume_init')
+def _(vm, a, ci):
+    mu = vm.ref_get(vm.box_ptr(a[0]))
+    return vm.new_box(mu.fields[1].fields[0].fields[0])
+
+
 @path('RefCell::new', 'Cell::new')
 def _(vm, a, ci): return Adt('RefCell', 0, [a[0], 0])
 
